@@ -320,6 +320,9 @@ def observe(case):
             r = region.is_reached(states[0])
             if not isinstance(r, (bool, np.bool_)):
                 return ("exc", "NotBool:" + type(r).__name__)
+            r2 = region.is_reached(states[0])    # membership is a function of region and state: the same objects again
+            if bool(r2) != bool(r):
+                return ("again", bool(r), bool(r2))
             return ("b", bool(r))
         init = InitialState(time_step=0, position=np.array([0.0, 0.0]), orientation=0.0, velocity=0.0,
                             acceleration=0.0, yaw_rate=0.0, slip_angle=0.0)
@@ -459,6 +462,9 @@ def oracle(case):
     kinds = "+".join(sorted({k for g in case["goals"] for k in ("pos", "orient", "vel") if g.get(k) is not None}))
     if o[0] == "exc":
         return (f"{case['op']}:{cls}:raises {o[1]}", f"{case['op']} raises {o[1]} on an admissible input: {brief(case)}")
+    if o[0] == "again":
+        return (f"is_reached:{cls}:second answer differs",
+                f"is_reached answers {o[1]}, then {o[2]} for the same region and state objects: {brief(case)}")
     if case["op"] == "is_reached":
         if exp[0] is None or o[1] == exp[0]:
             return None
@@ -536,7 +542,7 @@ def gen_shape(rng, allow=("rect", "rect0", "circ", "poly", "group", "lanelet")):
         return {"k": "poly", "v": v}
     if k == "group":
         return {"k": "group", "shapes": [gen_shape(rng, ("rect", "rect0", "circ", "poly"))
-                                         for _ in range(rng.randint(1, 3))]}
+                                         for _ in range(rng.choice([1, 2, 2, 3, 3]))]}
     # lanelets: consecutive straight / kinked strips with dyadic vertices
     lanes, x0, y0 = [], c[0], c[1]
     for j in range(rng.randint(1, 3)):
@@ -677,6 +683,9 @@ def gen_state(rng, goals, cls, t=None):
     # position
     gp = g.get("pos") or next((x["pos"] for x in goals if x.get("pos")), None)
     k = rng.random()
+    if gp is not None and gp["k"] == "group":
+        # aim at any member, not only the first one (a member that is asked after another one: seed C08-14)
+        gp = rng.choice(gp["shapes"])
     if gp is not None and k < 0.3:
         s["pos"] = boundary_point(rng, gp) or shape_ref_point(gp)
     elif gp is not None and k < 0.65:
